@@ -73,7 +73,7 @@ func (context *CHFContext) NewCHFUe(supi string) (*ChfUe, error) {
 	if ue, ok := context.ChfUeFindBySupi(supi); ok {
 		return ue, nil
 	}
-	if strings.HasPrefix(supi, "imsi-") {
+	if strings.HasPrefix(supi, "imsi-") && isImsi(supi[len("imsi-"):]) {
 		ue := ChfUe{}
 		ue.init()
 		ue.Supi = supi
@@ -87,6 +87,20 @@ func (context *CHFContext) NewCHFUe(supi string) (*ChfUe, error) {
 	} else {
 		return nil, fmt.Errorf(" add Ue context fail ")
 	}
+}
+
+// isImsi reports whether s is an IMSI as of TS 23.003 clause 2.2: decimal digits only, not
+// more than 15 of them. The SUPI ends up in file names and session references.
+func isImsi(s string) bool {
+	if len(s) == 0 || len(s) > 15 {
+		return false
+	}
+	for _, c := range s {
+		if c < '0' || c > '9' {
+			return false
+		}
+	}
+	return true
 }
 
 func (context *CHFContext) ChfUeFindBySupi(supi string) (*ChfUe, bool) {
